@@ -146,14 +146,17 @@ Definition clip_elem_ts (e : celem) (bbox : option qrect) : option ts :=
   then match bbox with Some B => Some (clip_resolve_ts (ce_ts e) B) | None => None end
   else Some (ce_ts e).
 
-(* clippath::convert: cache lookup only for `cacheable` elements; objectBoundingBox transform from the user's
-   box; the link is converted with the same box; a generated id when an objectBoundingBox element is
+(* clippath::is_cacheable (since 18adf92): no clipPath of the whole link chain is objectBoundingBox *)
+Definition chain_cacheable (c : csrc) : bool := forallb (fun e => clip_cacheable (ce_units e)) c.
+
+(* clippath::convert: cache lookup only for `cacheable` chains; objectBoundingBox transform from the user's
+   box; the link is converted with the same box; a generated id when a non-cacheable element is
    converted again; every converted element goes into the cache *)
 Fixpoint clip_convert (taken : list N) (c : csrc) (bbox : option qrect) (st : cstate) : option cconv * cstate :=
   match c with
   | [] => (Some [], st)
   | e :: link =>
-      let cacheable := clip_cacheable (ce_units e) in
+      let cacheable := chain_cacheable (e :: link) in
       match (if cacheable then cache_get (cs_cache st) (ce_id e) else None) with
       | Some v => (Some v, st)
       | None =>
@@ -190,13 +193,7 @@ Fixpoint ts_list_eqb (a b : list ts) : bool :=
   | x :: r, y :: s => ts_eqb' x y && ts_list_eqb r s
   | _, _ => false
   end.
-(* known class (F18): a cacheable (user-space) clip path with an objectBoundingBox clip path behind it *)
 Definition chain_has_obb (c : csrc) : bool := existsb (fun e => units_eqb (ce_units e) ObjectBoundingBox) c.
-Fixpoint KnownClass_cached_obb_link (c : csrc) : bool :=
-  match c with
-  | [] => false
-  | e :: link => (clip_cacheable (ce_units e) && chain_has_obb link) || KnownClass_cached_obb_link link
-  end.
 (* convert for a sequence of users *)
 Fixpoint clip_users (taken : list N) (us : list (csrc * option qrect)) (st : cstate) : list (option cconv) :=
   match us with
